@@ -1,7 +1,8 @@
 import Chain33Model.Base.Wire
-import Chain33Model.Model.C02
+import Chain33Model.Model.C02Lazy
 open Wire
 
-/-- ops: `C02.Drv.handle` (mset/commit/rollback + every C01 op). -/
+/-- ops: `C02.Drv.handle` (mset/commit/rollback + every C01 op) on the eager model; after a line `lazy` the same ops
+run on the literal lazy model with memTree (`C02L.Drv.handle`). -/
 def main : IO Unit := do
-  loopState (← IO.getStdin) (← IO.getStdout) C02.Drv.step (C01.Store.new C01.Cfg.default)
+  loopState (← IO.getStdin) (← IO.getStdout) C02L.Drv.step C02L.Drv.DS.init
